@@ -18,8 +18,13 @@ BUDGET_S = {'quick': 300, 'thorough': 3600}
 
 
 class LossMix(Mix):
-    def __init__(self, inters, fs, cut_points, kinds, bound_faults=1, flavour='tcp', **kw):
+    def __init__(self, inters, fs, cut_points, kinds, bound_faults=1, flavour='tcp', lease=False, **kw):
+        if lease:
+            # the client honours leases and the server never grants one: every request stays parked in the lease queue
+            from rsocket.lease import LeasePublisher
+            kw = dict(kw, client_kw={'honor_lease': True}, server_kw={'lease_publisher': LeasePublisher()})
         super().__init__(inters, flavour, fs, monitors_=(), **kw)
+        self.params['lease'] = lease
         self.cut_points = cut_points
         self.kinds = kinds
         self.world_kw = dict(self.world_kw, fault_budget=bound_faults)
@@ -184,6 +189,11 @@ def make_units(tier):
                     K = 16
                     for k in range(K):
                         units.append({'name': name, 'inters': ins, 'fs': fs, 'kinds': list(kinds), 'cut_points': 'boundaries', 'bound': 2, 'shard': [k, K]})
+    lease_mixes = {'lease never granted: rr c + stream c + fnf c': [dict(kind='rr', init='c', tag='A', rr_mode='late'), dict(kind='stream', init='c', tag='B', down=2, pub='manual', credit='one'), dict(kind='fnf', init='c', tag='C')],
+                   'lease never granted: channel c + rr s': [dict(kind='channel', init='c', tag='A', down=1, up=1, pub='manual', credit='one'), dict(kind='rr', init='s', tag='B', rr_mode='late')]}
+    for name, inters in lease_mixes.items():
+        for kinds in (('eof',), ('rst',), ('close',)):
+            units.append({'name': name, 'inters': [dict(d, size='S') for d in inters], 'fs': None, 'kinds': list(kinds), 'cut_points': 'boundaries', 'bound': 1, 'shard': [0, 1], 'lease': True})
     for name, inters in slow_sender_mixes().items():
         for fs in (None, 64):
             for kinds in (('eof',), ('rst',), ('wr',), ('close',)):
@@ -208,7 +218,7 @@ def bounds(tier):
 
 def scenario_of(unit):
     return LossMix([Inter.from_spec(_full(d)) for d in unit['inters']], unit['fs'], unit['cut_points'], tuple(unit['kinds']),
-                   alts=('all',) if unit['bound'] > 1 else (), modes=('Q',), name=unit['name'], flavour=unit.get('flavour', 'tcp'), slow_sender=unit.get('slow_sender', False))
+                   alts=('all',) if unit['bound'] > 1 else (), modes=('Q',), name=unit['name'], flavour=unit.get('flavour', 'tcp'), slow_sender=unit.get('slow_sender', False), lease=unit.get('lease', False))
 
 
 def run_unit(unit, part):
@@ -218,7 +228,7 @@ def run_unit(unit, part):
 def scenario_from(name, params):
     return LossMix([Inter.from_spec(d) for d in params['inters']], params['fs'], params['cut_points'], tuple(params['fault_kinds']),
                    bound_faults=params.get('faults', 1), alts=tuple(params['alts']), modes=tuple(params['modes']), name=name,
-                   flavour=params.get('flavour', 'tcp'), slow_sender=params.get('slow_sender', False))
+                   flavour=params.get('flavour', 'tcp'), slow_sender=params.get('slow_sender', False), lease=params.get('lease', False))
 
 
 def replay(rec):
